@@ -124,11 +124,37 @@ Qed.
 Lemma memZ_false x l : memZ x l = false <-> ~ In x l.
 Proof. rewrite <- memZ_In. destruct (memZ x l); split; congruence. Qed.
 
-Lemma nodupZ_NoDup l : nodupZ l = true -> NoDup l.
+Lemma keyb_eq a b : keyb a b = true <-> a = b.
 Proof.
-  induction l as [|a l IH]; simpl; intros H; [constructor|].
-  apply andb_true_iff in H. destruct H as [H1 H2]. constructor; [|auto].
-  apply negb_true_iff in H1. apply memZ_false in H1. exact H1.
+  destruct a as [a1 a2], b as [b1 b2]. unfold keyb; simpl. rewrite andb_true_iff, !Z.eqb_eq.
+  split; [intros [-> ->]; reflexivity|intros H; inversion H; auto].
+Qed.
+
+Lemma memK_In x l : memK x l = true <-> In x l.
+Proof.
+  unfold memK. rewrite existsb_exists. split.
+  - intros [y [Hy E]]. apply keyb_eq in E. subst. exact Hy.
+  - intros H. exists x. split; [exact H|apply keyb_eq; reflexivity].
+Qed.
+
+Lemma memK_false x l : memK x l = false <-> ~ In x l.
+Proof. rewrite <- memK_In. destruct (memK x l); split; congruence. Qed.
+
+Lemma fkey_eq_dec (a b : fkey) : {a = b} + {a <> b}.
+Proof. decide equality; apply Z.eq_dec. Qed.
+
+(* Reader.OnData adds exactly the pair it was called with: earlier registrations stay, whatever their media *)
+Lemma on_data_keys od m f k : In k (keys_of (on_data od m f)) <-> k = (m, f) \/ In k (keys_of od).
+Proof.
+  induction od as [|[m' fs] t IH].
+  - simpl. split; [intros [H|[]]; left; auto|intros [H|[]]; left; auto].
+  - simpl on_data. destruct (Z.eqb_spec m' m) as [->|Hne]; unfold keys_of in *; simpl; rewrite !in_app_iff.
+    + destruct (memZ f fs) eqn:Ef.
+      * apply memZ_In in Ef. split; [tauto|]. intros [->|H]; [|exact H]. left. apply in_map_iff. exists f. auto.
+      * rewrite map_app, in_app_iff. simpl. split.
+        -- intros [[H|[H|[]]]|H]; auto.
+        -- intros [->|[H|H]]; auto.
+    + rewrite IH. tauto.
 Qed.
 
 (* ============================================================================================ *)
@@ -282,8 +308,9 @@ Definition qinv (n : nat) (rd : reader) (off : list item) : Prop :=
     subseq (r_delivered rd ++ inflight rd ++ q) off /\
     length off = length (r_delivered rd) + length (inflight rd) + length q + r_discarded rd + k.
 
-Record rinv (n : nat) (r : Z) (od : Z -> list Z) (rd : reader) (m : mon) : Prop := {
-  ri_att : m_att m = match r_phase rd with Attached => Some (r_subs rd) | _ => None end;
+Record rinv (n : nat) (r : Z) (od : fkey -> list Z) (rd : reader) (m : mon) : Prop := {
+  ri_att : m_att m = match r_phase rd with Attached => Some (m_pre m) | _ => None end;
+  ri_pre : forall f, In f (m_pre m) <-> In f (r_subs rd);
   ri_sub : forall f, In r (od f) <-> (r_phase rd = Attached /\ In f (r_subs rd));
   ri_fmt : Forall (fun x => In (fst x) (r_subs rd)) (m_off m);
   ri_size : rb_size (r_buf rd) = n;
@@ -298,7 +325,8 @@ Definition Inv (s : state) (M : Z -> mon) : Prop :=
   (forall r, m_cur (M r) = s_cur s) /\
   forall r, match s_readers s r with
             | Some rd => rinv (s_qsize s) r (s_onDatas s) rd (M r)
-            | None => m_att (M r) = None /\ m_off (M r) = [] /\ forall f, ~ In r (s_onDatas s f)
+            | None => m_att (M r) = None /\ m_off (M r) = [] /\ (forall f, ~ In r (s_onDatas s f)) /\
+                      forall f, In f (m_pre (M r)) <-> In f (keys_of (s_prep s r))
             end.
 
 Lemma Inv_init fmts n : 0 < n -> Inv (init fmts n) (fun _ => mon_init).
@@ -307,10 +335,11 @@ Proof.
 Qed.
 
 Lemma rinv_mon_ext n r od rd m m' :
-  m_att m = m_att m' -> m_off m = m_off m' -> rinv n r od rd m -> rinv n r od rd m'.
+  m_att m = m_att m' -> m_pre m = m_pre m' -> m_off m = m_off m' -> rinv n r od rd m -> rinv n r od rd m'.
 Proof.
-  intros Ha Ho [H1 H2 H3 H4 H5 H6 H7]. constructor; try assumption.
-  - rewrite <- Ha. exact H1.
+  intros Ha Hp Ho [H1 H0 H2 H3 H4 H5 H6 H7]. constructor; try assumption.
+  - rewrite <- Ha, <- Hp. exact H1.
+  - rewrite <- Hp. exact H0.
   - rewrite <- Ho. exact H3.
   - rewrite <- Ho. exact H7.
 Qed.
@@ -318,7 +347,7 @@ Qed.
 Lemma rinv_od_ext n r od od' rd m :
   (forall f, In r (od' f) <-> In r (od f)) -> rinv n r od rd m -> rinv n r od' rd m.
 Proof.
-  intros He [H1 H2 H3 H4 H5 H6 H7]. constructor; try assumption.
+  intros He [H1 H0 H2 H3 H4 H5 H6 H7]. constructor; try assumption.
   intros f. rewrite He. apply H2.
 Qed.
 
@@ -355,9 +384,9 @@ Ltac qsplit := split; [|split; [|split; [|split; [|split]]]].
 
 Lemma rinv_push n r od rd m x :
   0 < n -> rinv n r od rd m -> r_phase rd = Attached -> In (fst x) (r_subs rd) ->
-  rinv n r od (push_rd x rd) {| m_cur := m_cur m; m_att := m_att m; m_off := m_off m ++ [x] |}.
+  rinv n r od (push_rd x rd) {| m_cur := m_cur m; m_pre := m_pre m; m_att := m_att m; m_off := m_off m ++ [x] |}.
 Proof.
-  intros Hn [H1 H2 H3 H4 H5 H6 [q [k [Hq [Hopen [Hcl [Hk [Hss Hlen]]]]]]]] Hph Hx.
+  intros Hn [H1 H0 H2 H3 H4 H5 H6 [q [k [Hq [Hopen [Hcl [Hk [Hss Hlen]]]]]]]] Hph Hx.
   rewrite Hph in Hopen. destruct (Hopen eq_refl) as [Hwi ->]. clear Hopen.
   assert (Hqn : length q <= n). { destruct Hq as [_ [_ [Hq _]]]. rewrite H4 in Hq. exact Hq. }
   assert (Hok : ring_ok (r_buf rd) q). { split; [exact Hq|]. rewrite H4. exact Hwi. }
@@ -420,39 +449,41 @@ Lemma step_inv s M l s' :
   Inv s M -> step s l = Some s' -> Inv s' (fun r => mon_step r (M r) l).
 Proof.
   intros HI Hst. pose proof HI as [Hn [Hnd [Hcur Hr]]].
-  destruct l as [ss f u|r|r ok|r fmts|r|r|r|ss]; simpl in Hst.
+  destruct l as [ss f u|r|r ok|r m0 f0|r|r|r|r|ss]; simpl in Hst.
   - (* Write *)
-    destruct (memZ f (s_formats s)); simpl in Hst; [|discriminate].
+    destruct (memK f (s_formats s)); simpl in Hst; [|discriminate].
     destruct (opt_eqb (s_cur s) ss) eqn:Ecur; inversion Hst; subst; clear Hst.
-    + unfold Inv; simpl. repeat split; try assumption.
+    + unfold Inv, deliver; simpl. repeat split; try assumption.
       * intros r0. specialize (Hcur r0). destruct (m_att (M r0)); [|exact Hcur].
-        destruct (opt_eqb (m_cur (M r0)) ss && memZ f l); exact Hcur.
+        destruct (opt_eqb (m_cur (M r0)) ss && memK f l); exact Hcur.
       * intros r0. specialize (Hr r0). specialize (Hcur r0).
         destruct (in_dec Z.eq_dec r0 (s_onDatas s f)) as [Hin|Hni].
-        -- destruct (s_readers s r0) as [rd|] eqn:Erd; [|destruct Hr as [_ [_ Hno]]; exfalso; apply (Hno f Hin)].
+        -- destruct (s_readers s r0) as [rd|] eqn:Erd; [|destruct Hr as [_ [_ [Hno _]]]; exfalso; apply (Hno f Hin)].
            rewrite (fold_push_in _ _ _ _ rd) by auto.
            pose proof (proj1 (ri_sub _ _ _ _ _ Hr f) Hin) as [Hph Hf].
            rewrite (ri_att _ _ _ _ _ Hr), Hph, Hcur, Ecur. simpl.
-           rewrite (proj2 (memZ_In f (r_subs rd)) Hf).
+           rewrite (proj2 (memK_In f (m_pre (M r0))) (proj2 (ri_pre _ _ _ _ _ Hr f) Hf)).
            pose proof (rinv_push _ _ _ _ _ (f, u) Hn Hr Hph Hf) as Hp.
-           eapply rinv_mon_ext; [| |exact Hp]; simpl; [|reflexivity].
+           eapply rinv_mon_ext; [| | |exact Hp]; simpl; [|reflexivity|reflexivity].
            rewrite (ri_att _ _ _ _ _ Hr), Hph. reflexivity.
         -- rewrite fold_push_other by assumption.
            destruct (s_readers s r0) as [rd|] eqn:Erd.
            ++ assert (Hm : match m_att (M r0) with
-                           | Some fmts => if opt_eqb (m_cur (M r0)) ss && memZ f fmts
-                                          then {| m_cur := m_cur (M r0); m_att := m_att (M r0); m_off := m_off (M r0) ++ [(f, u)] |}
+                           | Some fmts => if opt_eqb (m_cur (M r0)) ss && memK f fmts
+                                          then {| m_cur := m_cur (M r0); m_pre := m_pre (M r0); m_att := m_att (M r0);
+                                                  m_off := m_off (M r0) ++ [(f, u)] |}
                                           else M r0
                            | None => M r0 end = M r0).
               { rewrite (ri_att _ _ _ _ _ Hr). destruct (r_phase rd) eqn:Eph; try reflexivity.
-                destruct (memZ f (r_subs rd)) eqn:Ef; [|rewrite andb_false_r; reflexivity].
-                exfalso. apply Hni. apply (ri_sub _ _ _ _ _ Hr). split; [exact Eph|apply memZ_In; exact Ef]. }
+                destruct (memK f (m_pre (M r0))) eqn:Ef; [|rewrite andb_false_r; reflexivity].
+                exfalso. apply Hni. apply (ri_sub _ _ _ _ _ Hr).
+                split; [exact Eph|apply (ri_pre _ _ _ _ _ Hr), memK_In; exact Ef]. }
               rewrite Hm. exact Hr.
            ++ destruct Hr as [Ha Hrest]. rewrite Ha. split; [exact Ha|exact Hrest].
     + (* stale sub-stream: nothing happens *)
       unfold Inv. repeat split; try assumption.
       * intros r0. specialize (Hcur r0). simpl. destruct (m_att (M r0)); [|exact Hcur].
-        destruct (opt_eqb (m_cur (M r0)) ss && memZ f l); exact Hcur.
+        destruct (opt_eqb (m_cur (M r0)) ss && memK f l); exact Hcur.
       * intros r0. specialize (Hr r0). specialize (Hcur r0). cbv beta.
         assert (Hm : mon_step r0 (M r0) (Write ss f u) = M r0).
         { simpl. rewrite Hcur, Ecur. simpl. destruct (m_att (M r0)); reflexivity. }
@@ -461,7 +492,7 @@ Proof.
     specialize (Hr r) as Hrr.
     destruct (s_readers s r) as [rd|] eqn:Erd; [|discriminate].
     destruct (r_go rd) eqn:Ego; try discriminate.
-    destruct Hrr as [H1 H2 H3 H4 H5 H6 [q [k [Hq [Hopen [Hcl [Hk [Hss Hlen]]]]]]]].
+    destruct Hrr as [H1 H0 H2 H3 H4 H5 H6 [q [k [Hq [Hopen [Hcl [Hk [Hss Hlen]]]]]]]].
     assert (Hinf : inflight rd = []) by (unfold inflight; rewrite Ego; reflexivity).
     destruct q as [|x q].
     + rewrite ring_pull_empty in Hst by (rewrite ?H4; assumption).
@@ -487,27 +518,40 @@ Proof.
     specialize (Hr r) as Hrr.
     destruct (s_readers s r) as [rd|] eqn:Erd; [|discriminate].
     destruct (r_go rd) eqn:Ego; try discriminate. inversion Hst; subst; clear Hst.
-    destruct Hrr as [H1 H2 H3 H4 H5 H6 [q [k [Hq [Hopen [Hcl [Hk [Hss Hlen]]]]]]]].
+    destruct Hrr as [H1 H0 H2 H3 H4 H5 H6 [q [k [Hq [Hopen [Hcl [Hk [Hss Hlen]]]]]]]].
     apply inv_update_one; [exact HI|reflexivity|].
     constructor; simpl; try assumption.
     + intros Hj. rewrite (H6 Hj) in Ego. discriminate.
     + exists q, k. infl. rewrite Ego in Hss, Hlen. simpl in Hss, Hlen. qsplit; try assumption.
       * destruct ok; simpl; rewrite <- app_assoc; exact Hss.
       * rewrite app_length. destruct ok; simpl; lia.
+  - (* OnData *)
+    specialize (Hr r) as Hrr.
+    destruct (s_readers s r) as [rd|] eqn:Erd; [discriminate|].
+    inversion Hst; subst; clear Hst.
+    destruct Hrr as [Ha [Ho [Hno Hpre]]].
+    unfold Inv; simpl. repeat split; try assumption.
+    + intros r0. destruct (Z.eqb_spec r r0); simpl; apply Hcur.
+    + intros r0. specialize (Hr r0). rewrite (Z.eqb_sym r0 r). destruct (Z.eqb_spec r r0) as [<-|Hne].
+      * rewrite Erd. simpl. split; [exact Ha|split; [exact Ho|split; [exact Hno|]]].
+        intros k. rewrite on_data_keys, in_app_iff, Hpre. simpl. intuition congruence.
+      * exact Hr.
   - (* AddReader *)
     specialize (Hr r) as Hrr.
     destruct (s_readers s r) as [rd|] eqn:Erd; [discriminate|].
-    destruct (forallb (fun f => memZ f (s_formats s)) fmts && nodupZ fmts) eqn:Eok; [|discriminate].
+    destruct (forallb (fun f => memK f (s_formats s)) (keys_of (s_prep s r))) eqn:Eok; [|discriminate].
     inversion Hst; subst; clear Hst.
-    destruct Hrr as [Ha [Ho Hno]].
+    destruct Hrr as [Ha [Ho [Hno Hpre]]].
+    set (fmts := keys_of (s_prep s r)) in *.
     unfold Inv; simpl. repeat split; try assumption.
-    + intros f. destruct (memZ f fmts); [|apply Hnd]. constructor; [apply Hno|apply Hnd].
+    + intros f. destruct (memK f fmts); [|apply Hnd]. constructor; [apply Hno|apply Hnd].
     + intros r0. destruct (Z.eqb_spec r r0); simpl; apply Hcur.
     + intros r0. unfold set_reader. rewrite (Z.eqb_sym r r0). destruct (Z.eqb_spec r0 r) as [->|Hne].
       * constructor; simpl; try reflexivity.
-        -- intros f. destruct (memZ f fmts) eqn:Ef.
-           ++ apply memZ_In in Ef. split; [intros _; split; [reflexivity|exact Ef]|intros _; left; reflexivity].
-           ++ apply memZ_false in Ef. split; [intros H; exfalso; apply (Hno f H)|intros [_ H]; tauto].
+        -- exact Hpre.
+        -- intros f. destruct (memK f fmts) eqn:Ef.
+           ++ apply memK_In in Ef. split; [intros _; split; [reflexivity|exact Ef]|intros _; left; reflexivity].
+           ++ apply memK_false in Ef. split; [intros H; exfalso; apply (Hno f H)|intros [_ H]; tauto].
         -- rewrite Ho. constructor.
         -- discriminate.
         -- exists [], 0. rewrite Ho. destruct (ring_new_ok _ Hn) as [Hh Hw]. infl. qsplit.
@@ -519,36 +563,36 @@ Proof.
            ++ reflexivity.
       * specialize (Hr r0). destruct (s_readers s r0) as [rd0|].
         -- eapply rinv_od_ext; [|exact Hr]. intros f. simpl.
-           destruct (memZ f fmts); [|reflexivity]. simpl. split; [intros [E|H]; [congruence|exact H]|auto].
-        -- destruct Hr as [Ha0 [Ho0 Hno0]]. repeat split; try assumption.
-           intros f. destruct (memZ f fmts); [|apply Hno0]. simpl. intros [E|H]; [congruence|apply (Hno0 f H)].
+           destruct (memK f fmts); [|reflexivity]. simpl. split; [intros [E|H]; [congruence|exact H]|auto].
+        -- destruct Hr as [Ha0 [Ho0 [Hno0 Hpre0]]]. split; [exact Ha0|split; [exact Ho0|split; [|exact Hpre0]]].
+           intros f. destruct (memK f fmts); [|apply Hno0]. simpl. intros [E|H]; [congruence|apply (Hno0 f H)].
   - (* RemoveBegin *)
     specialize (Hr r) as Hrr.
     destruct (s_readers s r) as [rd|] eqn:Erd; [|discriminate].
     destruct (r_phase rd) eqn:Eph; try discriminate. inversion Hst; subst; clear Hst.
     unfold Inv; simpl. repeat split; try assumption.
-    + intros f. destruct (memZ f (r_subs rd)); [apply NoDup_remove_Z|]; apply Hnd.
+    + intros f. destruct (memK f (r_subs rd)); [apply NoDup_remove_Z|]; apply Hnd.
     + intros r0. destruct (Z.eqb_spec r r0); simpl; apply Hcur.
     + intros r0. unfold set_reader. rewrite (Z.eqb_sym r r0). destruct (Z.eqb_spec r0 r) as [->|Hne].
-      * destruct Hrr as [H1 H2 H3 H4 H5 H6 H7]. constructor; simpl; try assumption; try reflexivity.
+      * destruct Hrr as [H1 H0 H2 H3 H4 H5 H6 H7]. constructor; simpl; try assumption; try reflexivity.
         -- intros f. split; [|intros [H _]; discriminate]. intros Hin. exfalso.
-           destruct (memZ f (r_subs rd)) eqn:Ef.
+           destruct (memK f (r_subs rd)) eqn:Ef.
            ++ apply in_remove_iff in Hin. tauto.
-           ++ apply memZ_false in Ef. apply H2 in Hin. tauto.
+           ++ apply memK_false in Ef. apply H2 in Hin. tauto.
         -- rewrite Eph in H5. exact H5.
         -- discriminate.
         -- destruct H7 as [q [k H7]]. exists q, k. rewrite Eph in H7. exact H7.
       * specialize (Hr r0). destruct (s_readers s r0) as [rd0|].
         -- eapply rinv_od_ext; [|exact Hr]. intros f. simpl.
-           destruct (memZ f (r_subs rd)); [|reflexivity]. rewrite in_remove_iff. tauto.
-        -- destruct Hr as [Ha0 [Ho0 Hno0]]. repeat split; try assumption.
-           intros f. destruct (memZ f (r_subs rd)); [|apply Hno0]. rewrite in_remove_iff.
+           destruct (memK f (r_subs rd)); [|reflexivity]. rewrite in_remove_iff. tauto.
+        -- destruct Hr as [Ha0 [Ho0 [Hno0 Hpre0]]]. split; [exact Ha0|split; [exact Ho0|split; [|exact Hpre0]]].
+           intros f. destruct (memK f (r_subs rd)); [|apply Hno0]. rewrite in_remove_iff.
            intros [H _]. apply (Hno0 f H).
   - (* RemoveClose *)
     specialize (Hr r) as Hrr.
     destruct (s_readers s r) as [rd|] eqn:Erd; [|discriminate].
     destruct (r_phase rd) eqn:Eph; try discriminate. inversion Hst; subst; clear Hst.
-    destruct Hrr as [H1 H2 H3 H4 H5 H6 [q [k [Hq [Hopen [Hcl [Hk [Hss Hlen]]]]]]]].
+    destruct Hrr as [H1 H0 H2 H3 H4 H5 H6 [q [k [Hq [Hopen [Hcl [Hk [Hss Hlen]]]]]]]].
     rewrite Eph in *. destruct (Hopen eq_refl) as [Hwi ->].
     apply inv_update_one; [exact HI| |].
     { intros r0 m. simpl. reflexivity. }
@@ -567,7 +611,7 @@ Proof.
     destruct (s_readers s r) as [rd|] eqn:Erd; [|discriminate].
     destruct (r_phase rd) eqn:Eph; try discriminate.
     destruct (r_go rd) eqn:Ego; try discriminate. inversion Hst; subst; clear Hst.
-    destruct Hrr as [H1 H2 H3 H4 H5 H6 [q [k [Hq [Hopen [Hcl [Hk [Hss Hlen]]]]]]]].
+    destruct Hrr as [H1 H0 H2 H3 H4 H5 H6 [q [k [Hq [Hopen [Hcl [Hk [Hss Hlen]]]]]]]].
     rewrite Eph in *.
     apply inv_update_one; [exact HI| |].
     { intros r0 m. simpl. reflexivity. }
@@ -579,7 +623,7 @@ Proof.
     inversion Hst; subst; clear Hst.
     unfold Inv; simpl. repeat split; try assumption.
     intros r0. specialize (Hr r0). destruct (s_readers s r0).
-    + eapply rinv_mon_ext; [| |exact Hr]; reflexivity.
+    + eapply rinv_mon_ext; [| | |exact Hr]; reflexivity.
     + exact Hr.
 Qed.
 
@@ -628,15 +672,16 @@ Qed.
 
 Lemma step_qsize s l s' : step s l = Some s' -> s_qsize s' = s_qsize s /\ s_formats s' = s_formats s.
 Proof.
-  intros Hst. destruct l as [ss f u|r|r ok|r fmts|r|r|r|ss]; simpl in Hst.
-  - destruct (memZ f (s_formats s)); simpl in Hst; [|discriminate].
+  intros Hst. destruct l as [ss f u|r|r ok|r m0 f0|r|r|r|r|ss]; simpl in Hst.
+  - destruct (memK f (s_formats s)); simpl in Hst; [|discriminate].
     destruct (opt_eqb (s_cur s) ss); inversion Hst; subst; split; reflexivity.
   - destruct (s_readers s r) as [rd|]; [|discriminate]. destruct (r_go rd); try discriminate.
     destruct (rb_pull (r_buf rd)); try discriminate; inversion Hst; subst; split; reflexivity.
   - destruct (s_readers s r) as [rd|]; [|discriminate]. destruct (r_go rd); try discriminate.
     inversion Hst; subst; split; reflexivity.
+  - destruct (s_readers s r) as [rd|]; [discriminate|]. inversion Hst; subst; split; reflexivity.
   - destruct (s_readers s r) as [rd|]; [discriminate|].
-    destruct (forallb (fun f => memZ f (s_formats s)) fmts && nodupZ fmts); [|discriminate].
+    destruct (forallb (fun f => memK f (s_formats s)) (keys_of (s_prep s r))); [|discriminate].
     inversion Hst; subst; split; reflexivity.
   - destruct (s_readers s r) as [rd|]; [|discriminate]. destruct (r_phase rd); try discriminate.
     inversion Hst; subst; split; reflexivity.
@@ -680,12 +725,13 @@ Proof.
   induction ls as [|l t IH]; intros m; simpl.
   - exists []. split; [rewrite app_nil_r; reflexivity|constructor].
   - destruct (IH (mon_step r m l)) as [X [HX HS]].
-    destruct l as [ss f u|r0|r0 ok|r0 fmts|r0|r0|r0|ss]; simpl in *;
+    destruct l as [ss f u|r0|r0 ok|r0 m0 f0|r0|r0|r0|r0|ss]; simpl in *;
       try (exists X; split; [exact HX|exact HS]).
     + destruct (m_att m) as [fm|]; [|exists X; split; [exact HX|apply subseq_skip, HS]].
-      destruct (opt_eqb (m_cur m) ss && memZ f fm); simpl in HX.
+      destruct (opt_eqb (m_cur m) ss && memK f fm); simpl in HX.
       * exists ((f, u) :: X). split; [rewrite HX, <- app_assoc; reflexivity|apply subseq_take, HS].
       * exists X. split; [exact HX|apply subseq_skip, HS].
+    + destruct (r0 =? r)%Z; exists X; split; try exact HX; exact HS.
     + destruct (r0 =? r)%Z; exists X; split; try exact HX; exact HS.
     + destruct (r0 =? r)%Z; exists X; split; try exact HX; exact HS.
 Qed.
@@ -743,7 +789,7 @@ Qed.
 
 Lemma write_stale s ss f u s' : s_cur s <> Some ss -> step s (Write ss f u) = Some s' -> s' = s.
 Proof.
-  intros Hne Hst. simpl in Hst. destruct (memZ f (s_formats s)); simpl in Hst; [|discriminate].
+  intros Hne Hst. simpl in Hst. destruct (memK f (s_formats s)); simpl in Hst; [|discriminate].
   destruct (opt_eqb (s_cur s) ss) eqn:E; [apply opt_eqb_true in E; contradiction|].
   inversion Hst; reflexivity.
 Qed.
@@ -754,8 +800,8 @@ Lemma write_subscribed s M ss f u s' r rd :
   s_readers s' r = Some (push_rd (f, u) rd).
 Proof.
   intros [Hn [Hnd [Hcur Hr]]] Hst Hc Hrd Hph Hf. simpl in Hst.
-  destruct (memZ f (s_formats s)); simpl in Hst; [|discriminate].
-  rewrite (proj2 (opt_eqb_true _ _) Hc) in Hst. inversion Hst; subst; clear Hst. simpl.
+  destruct (memK f (s_formats s)); simpl in Hst; [|discriminate].
+  rewrite (proj2 (opt_eqb_true _ _) Hc) in Hst. inversion Hst; subst; clear Hst. unfold deliver; simpl.
   apply fold_push_in; [apply Hnd| |exact Hrd].
   specialize (Hr r). rewrite Hrd in Hr. apply (ri_sub _ _ _ _ _ Hr). split; assumption.
 Qed.
@@ -766,8 +812,8 @@ Lemma write_unsubscribed s M ss f u s' r rd :
   s_readers s' r = Some rd.
 Proof.
   intros [Hn [Hnd [Hcur Hr]]] Hst Hrd Hno. simpl in Hst.
-  destruct (memZ f (s_formats s)); simpl in Hst; [|discriminate].
-  destruct (opt_eqb (s_cur s) ss); inversion Hst; subst; clear Hst; [|exact Hrd]. simpl.
+  destruct (memK f (s_formats s)); simpl in Hst; [|discriminate].
+  destruct (opt_eqb (s_cur s) ss); inversion Hst; subst; clear Hst; [|exact Hrd]. unfold deliver; simpl.
   rewrite fold_push_other; [exact Hrd|].
   specialize (Hr r). rewrite Hrd in Hr. intros Hin. apply Hno. apply (ri_sub _ _ _ _ _ Hr). exact Hin.
 Qed.
@@ -828,14 +874,14 @@ Theorem discard_only_when_full s l s' r rd rd' :
                    r_discarded rd' = S (r_discarded rd) /\ r_buf rd' = r_buf rd.
 Proof.
   intros Hre Hst Hrd Hrd' Hne. destruct (reachable_inv _ Hre) as [M HI].
-  destruct l as [ss f u|r0|r0 ok|r0 fmts|r0|r0|r0|ss].
+  destruct l as [ss f u|r0|r0 ok|r0 m0 f0|r0|r0|r0|r0|ss].
   - (* Write *)
     destruct (opt_eqb (s_cur s) ss) eqn:Ec.
     + apply opt_eqb_true in Ec.
       destruct (r_phase rd) eqn:Eph;
         try (rewrite (write_unsubscribed _ _ _ _ _ _ _ _ HI Hst Hrd) in Hrd';
              [inversion Hrd'; subst; contradiction|rewrite Eph; intros [H _]; discriminate]).
-      destruct (in_dec Z.eq_dec f (r_subs rd)) as [Hf|Hnf];
+      destruct (in_dec fkey_eq_dec f (r_subs rd)) as [Hf|Hnf];
         [|rewrite (write_unsubscribed _ _ _ _ _ _ _ _ HI Hst Hrd) in Hrd';
           [inversion Hrd'; subst; contradiction|intros [_ H]; contradiction]].
       rewrite (write_subscribed _ _ _ _ _ _ _ _ HI Hst Ec Hrd Eph Hf) in Hrd'. inversion Hrd'; subst; clear Hrd'.
@@ -862,7 +908,9 @@ Proof.
       (destruct (Z.eqb_spec r r0) as [->|_]; [rewrite Hrd in E0|rewrite Hrd in Hrd']);
       inversion Hrd'; subst; try inversion E0; subst; apply Hne; reflexivity.
   - exfalso. simpl in Hst. destruct (s_readers s r0) as [rd0|] eqn:E0; [discriminate|].
-    destruct (forallb (fun f => memZ f (s_formats s)) fmts && nodupZ fmts); [|discriminate].
+    inversion Hst; subst; clear Hst; simpl in Hrd'. rewrite Hrd in Hrd'. inversion Hrd'; subst. apply Hne; reflexivity.
+  - exfalso. simpl in Hst. destruct (s_readers s r0) as [rd0|] eqn:E0; [discriminate|].
+    destruct (forallb (fun f => memK f (s_formats s)) (keys_of (s_prep s r0))); [|discriminate].
     inversion Hst; subst; clear Hst; simpl in Hrd'; unfold set_reader in Hrd'.
     destruct (Z.eqb_spec r r0) as [->|_]; [rewrite Hrd in E0; discriminate|rewrite Hrd in Hrd'].
     inversion Hrd'; subst. apply Hne; reflexivity.
@@ -907,7 +955,7 @@ Lemma joined_frozen s M l s' r rd :
 Proof.
   intros HI Hrd Hph Hst. pose proof HI as [Hn [Hnd [Hcur Hr]]].
   specialize (Hr r). rewrite Hrd in Hr. pose proof (ri_join _ _ _ _ _ Hr Hph) as Hgo.
-  destruct l as [ss f u|r0|r0 ok|r0 fmts|r0|r0|r0|ss].
+  destruct l as [ss f u|r0|r0 ok|r0 m0 f0|r0|r0|r0|r0|ss].
   - eapply write_unsubscribed; try eassumption. rewrite Hph. intros [H _]. discriminate.
   - destruct (Z.eq_dec r0 r) as [->|Hne].
     + rewrite (proj1 (exited_disabled _ _ _ true Hrd Hgo)) in Hst. discriminate.
@@ -921,7 +969,9 @@ Proof.
       destruct (r_go rd0); try discriminate.
       inversion Hst; subst; simpl; unfold set_reader; (destruct (Z.eqb_spec r r0); [congruence|exact Hrd]).
   - simpl in Hst. destruct (s_readers s r0) as [rd0|] eqn:E0; [discriminate|].
-    destruct (forallb (fun f => memZ f (s_formats s)) fmts && nodupZ fmts); [|discriminate].
+    inversion Hst; subst; simpl. exact Hrd.
+  - simpl in Hst. destruct (s_readers s r0) as [rd0|] eqn:E0; [discriminate|].
+    destruct (forallb (fun f => memK f (s_formats s)) (keys_of (s_prep s r0))); [|discriminate].
     inversion Hst; subst; simpl; unfold set_reader. destruct (Z.eqb_spec r r0); [congruence|exact Hrd].
   - simpl in Hst. destruct (s_readers s r0) as [rd0|] eqn:E0; [|discriminate].
     destruct (r_phase rd0) eqn:Ep; try discriminate.
@@ -971,6 +1021,47 @@ Proof.
   specialize (Hr r). rewrite Hrd in Hr. apply (ri_sub _ _ _ _ _ Hr).
 Qed.
 
+(* the pairs a reader is registered with are exactly the pairs of its OnData calls (read off the labels) ... *)
+Theorem subs_are_asked fmts n ls s r rd :
+  0 < n -> run (init fmts n) ls = Some s -> s_readers s r = Some rd ->
+  forall k, In k (r_subs rd) <-> In k (asked r ls).
+Proof.
+  intros Hn Hrun Hrd k. destruct (reach_inv _ _ _ _ Hn Hrun) as [_ [_ [_ Hr]]].
+  specialize (Hr r). rewrite Hrd in Hr. symmetry. apply (ri_pre _ _ _ _ _ Hr).
+Qed.
+
+(* ... so the subscriber table of (media, format) k holds exactly the attached readers that asked for k *)
+Theorem subscribed_iff_asked fmts n ls s r rd k :
+  0 < n -> run (init fmts n) ls = Some s -> s_readers s r = Some rd ->
+  (In r (s_onDatas s k) <-> r_phase rd = Attached /\ In k (asked r ls)).
+Proof.
+  intros Hn Hrun Hrd. rewrite <- (subs_are_asked _ _ _ _ _ _ Hn Hrun Hrd).
+  apply subscribed_iff; [exists fmts, n, ls; auto|exact Hrd].
+Qed.
+
+(* `offered`, one label at a time: a Write label adds its unit for r exactly when it goes through the current
+   sub-stream while r is attached and r asked for that (media, format) - every such pair, not only the first of a media *)
+Theorem offered_write fmts n ls s r rd ss k u :
+  0 < n -> run (init fmts n) ls = Some s -> s_readers s r = Some rd ->
+  offered r (ls ++ [Write ss k u]) =
+    if match r_phase rd with Attached => true | _ => false end && opt_eqb (s_cur s) ss && memK k (asked r ls)
+    then offered r ls ++ [(k, u)] else offered r ls.
+Proof.
+  intros Hn Hrun Hrd. destruct (reach_inv _ _ _ _ Hn Hrun) as [_ [_ [Hcur Hr]]].
+  specialize (Hr r). specialize (Hcur r). rewrite Hrd in Hr. cbv beta in *.
+  unfold offered, asked. rewrite fold_left_app. simpl.
+  rewrite (ri_att _ _ _ _ _ Hr), Hcur. destruct (r_phase rd); simpl; try reflexivity.
+  destruct (opt_eqb (s_cur s) ss && memK k _); reflexivity.
+Qed.
+
+Theorem offered_snoc_other r ls l :
+  (forall ss k u, l <> Write ss k u) -> offered r (ls ++ [l]) = offered r ls.
+Proof.
+  intros Hl. unfold offered. rewrite fold_left_app. simpl.
+  destruct l; simpl; try reflexivity; try (destruct (_ =? r)%Z; reflexivity).
+  exfalso. eapply Hl. reflexivity.
+Qed.
+
 (* Pull hands out the oldest queued item *)
 Theorem pull_takes_head s r rd x q s' :
   reachable s -> s_readers s r = Some rd -> ring_holds (r_buf rd) (x :: q) -> step s (ReaderPull r) = Some s' ->
@@ -986,18 +1077,22 @@ Proof.
 Qed.
 
 (* ---- a concrete history (non-vacuity) ---------------------------------------------------------- *)
-(* queue size 2, formats 0 and 1; reader 1 subscribes to format 0, reader 2 to both. *)
+(* queue size 2; media 0 carries formats 0 and 1, media 1 carries format 0.  Reader 1 subscribes to (0,0); reader 2
+   to (0,0) and then to (0,1) - the second format of the same media - and, after a unit was written, to (1,0). *)
+Definition ex_fmts : list fkey := [(0, 0); (0, 1); (1, 0)]%Z.
 Definition ex_hist : list label :=
-  [ NewSub 10; AddReader 1 [0%Z]; AddReader 2 [0%Z; 1%Z];
-    Write 10 0 100; ReaderPull 1; ReaderPull 2;       (* both readers busy with unit 100 *)
-    Write 10 1 101;                                   (* only reader 2 *)
-    Write 10 0 102; Write 10 0 103;                   (* reader 1 queue: 102 103 (full); reader 2: 101 102, 103 discarded *)
-    Write 10 0 104;                                   (* discarded by both *)
-    NewSub 11; Write 10 0 105;                        (* stale sub-stream: reaches nobody *)
+  [ NewSub 10; OnData 1 0 0; AddReader 1; OnData 2 0 0; OnData 2 0 1;
+    Write 10 (0, 0) 100; ReaderPull 1;                (* reader 1 busy with unit 100; reader 2 not added yet *)
+    OnData 2 1 0; AddReader 2;
+    Write 10 (0, 1) 101; ReaderPull 2;                (* only reader 2: the first format of media 0 was not lost *)
+    Write 10 (0, 0) 102; Write 10 (0, 0) 103;         (* reader 1 queue: 102 103 (full); reader 2 queue: 102 103 (full) *)
+    Write 10 (0, 0) 104;                              (* discarded by both *)
+    Write 10 (1, 0) 105;                              (* reader 2 only: discarded *)
+    NewSub 11; Write 10 (0, 0) 106;                   (* stale sub-stream: reaches nobody *)
     ReaderDone 1 true; ReaderPull 1;                  (* 100 delivered, 102 in flight *)
-    RemoveBegin 2; Write 11 1 106;                    (* reader 2 already unsubscribed *)
+    RemoveBegin 2; Write 11 (0, 1) 107;               (* reader 2 already unsubscribed *)
     RemoveClose 2; ReaderDone 2 true; ReaderPull 2; RemoveJoin 2;
-    Write 11 0 107 ]%Z.
+    Write 11 (0, 0) 108 ]%Z.
 
 Definition ex_view (s : state) (r : Z) :=
   match s_readers s r with
@@ -1006,12 +1101,13 @@ Definition ex_view (s : state) (r : Z) :=
   end.
 
 Lemma example_run :
-  match run (init [0; 1]%Z 2) ex_hist with
+  match run (init ex_fmts 2) ex_hist with
   | Some s =>
-      ex_view s 1 = Some ([(0%Z, 100%Z)], [(0%Z, 102%Z)], 1, 2, Attached) /\
-      ex_view s 2 = Some ([(0%Z, 100%Z)], [], 2, 0, Joined) /\
-      offered 1 ex_hist = [(0, 100); (0, 102); (0, 103); (0, 104); (0, 107)]%Z /\
-      offered 2 ex_hist = [(0, 100); (1, 101); (0, 102); (0, 103); (0, 104)]%Z
+      ex_view s 1 = Some ([((0, 0), 100)%Z], [((0, 0), 102)%Z], 1, 2, Attached) /\
+      ex_view s 2 = Some ([((0, 1), 101)%Z], [], 2, 0, Joined) /\
+      offered 1 ex_hist = [((0, 0), 100); ((0, 0), 102); ((0, 0), 103); ((0, 0), 104); ((0, 0), 108)]%Z /\
+      offered 2 ex_hist = [((0, 1), 101); ((0, 0), 102); ((0, 0), 103); ((0, 0), 104); ((1, 0), 105)]%Z /\
+      asked 2 ex_hist = [(0, 0); (0, 1); (1, 0)]%Z
   | None => False
   end.
 Proof. vm_compute. repeat split; reflexivity. Qed.
@@ -1019,8 +1115,8 @@ Proof. vm_compute. repeat split; reflexivity. Qed.
 Lemma example_reachable :
   exists s, reachable s /\ exists rd, s_readers s 2%Z = Some rd /\ r_phase rd = Joined /\ r_discarded rd = 2.
 Proof.
-  destruct (run (init [0; 1]%Z 2) ex_hist) as [s|] eqn:E; [|vm_compute in E; discriminate].
-  exists s. split; [exists [0; 1]%Z, 2, ex_hist; split; [auto|exact E]|].
+  destruct (run (init ex_fmts 2) ex_hist) as [s|] eqn:E; [|vm_compute in E; discriminate].
+  exists s. split; [exists ex_fmts, 2, ex_hist; split; [auto|exact E]|].
   vm_compute in E. inversion E; subst. eexists. split; [reflexivity|split; reflexivity].
 Qed.
 
